@@ -12,7 +12,7 @@ Variable dbg : bool.
 
 Definition chunk_out (r : ires L_g_parse_chunk_size (nat * N) unit unit) : out (nat * N) :=
   match r with
-  | IDone _ l c => Done (apos c, g_parse_chunk_size_v_size l) c
+  | IDone _ l c => Done (apos c, g_parse_chunk_size_m1 l) c
   | IPart _ => Part
   | IFail e _ => Fail e
   | IFault f _ => Fault f
@@ -29,10 +29,10 @@ Ltac chunk_unfold :=
   cbv beta iota delta [irun ifun ibind iret ilift iget iset ipart ifail ifault ithrow iguard ireturn
                        bind ret fail part fault_ expect next next_opt peek peek_n peek_ahead advance bump
                        slice slice_skip pos remaining commit apos rest pre tokrev
-                       g_parse_chunk_size_v_size g_parse_chunk_size_v_in_chunk_size
-                       g_parse_chunk_size_v_in_ext g_parse_chunk_size_v_count
-                       set_g_parse_chunk_size_v_size set_g_parse_chunk_size_v_in_chunk_size
-                       set_g_parse_chunk_size_v_in_ext set_g_parse_chunk_size_v_count
+                       g_parse_chunk_size_m1 g_parse_chunk_size_m2
+                       g_parse_chunk_size_m3 g_parse_chunk_size_m4
+                       set_g_parse_chunk_size_m1 set_g_parse_chunk_size_m2
+                       set_g_parse_chunk_size_m3 set_g_parse_chunk_size_m4
                        in_rng in_range is_digit hex_lower hex_upper is is_ws CR LF SP HT chunk_out chunk_mo].
 
 Lemma cnv_ltb15 n : (15 <? N.of_nat n) = Nat.ltb 15 n. Proof. lia. Qed.
